@@ -81,6 +81,16 @@ theorem roles_do_not_leak (st : AuthState) (r : Role) (a : Addr)
   | false => rfl
   | true => exact absurd rfl (h r ((holds_admin_iff st r a).mp hh))
 
+/-- **unset_admin_authorises_nobody**: with no oracle admin stored (the default oracle genesis; no message
+    can set it later) nobody passes the guard of the three oracle-admin handlers (UpdateWhiteListValidator,
+    UpdateCethReceiverAccount, RescueCeth) — whatever admin roles the signer holds -/
+theorem unset_admin_authorises_nobody (t : AdminTable) (w : Option (List Addr)) (role : Role) (a : Addr) :
+    holds ⟨t, none, w⟩ .oracle role a = false := rfl
+
+/-- the same for the clp decommission whitelist when its key is absent -/
+theorem absent_whitelist_authorises_nobody (t : AdminTable) (o : Option Addr) (role : Role) (a : Addr) :
+    holds ⟨t, o, none⟩ .clpWhitelist role a = false := rfl
+
 /-- the other two stores are single-purpose: the admin table never satisfies them -/
 theorem stores_do_not_leak (t : AdminTable) (a : Addr) (role : Role) :
     holds ⟨t, none, none⟩ .oracle role a = false ∧ holds ⟨t, none, none⟩ .clpWhitelist role a = false := by
@@ -139,6 +149,14 @@ theorem grant_exact (st : AuthState) (k : Role × Addr) (r : Role) (a : Addr) (h
 theorem step_refuses_unauthorised (v : Bool) (st : AuthState) (h : Handler) (signer : Addr) (p : Option Payload)
     (hno : holds st h.store h.role signer = false) : stepMsgV v st h signer p = (st, .err) := by
   unfold stepMsgV; simp [hno]
+
+/-- and in the matrix model: such a message is refused and nothing changes, for every one of the three
+    handlers the specification guards by the oracle admin -/
+theorem unset_admin_refuses (t : AdminTable) (w : Option (List Addr)) (name : String) (signer : Addr) (p : Option Payload)
+    (hn : name = "UpdateWhiteListValidator" ∨ name = "UpdateCethReceiverAccount" ∨ name = "RescueCeth") :
+    stepMsg ⟨t, none, w⟩ (specHandler "ethbridge" name) signer p = (⟨t, none, w⟩, .err) := by
+  rcases hn with rfl | rfl | rfl <;>
+    (unfold stepMsg; exact step_refuses_unauthorised _ _ _ _ _ rfl)
 
 /-- the two table messages validate the spelling of the account  [fails without the F24 repair] -/
 theorem table_messages_validate_spelling :
@@ -247,7 +265,7 @@ theorem generated_guarded_no_effect {σ} (h : Handler) (hm : h ∈ Sif.Generated
   · exact absurd h1 hauth
   · unfold rowOK at h2
     simp only [Bool.and_eq_true] at h2
-    exact guard_first_no_effect a h hc h2.1.1.1.1.1 h2.1.1.1.1.2 s hno
+    exact guard_first_no_effect a h hc h2.1.1.1.1.1.1 h2.1.1.1.1.1.2 s hno
 
 /-- non-vacuity: the table is populated (46 methods, 30 with a guard) -/
 example : Sif.Generated.Auth.handlers.length = 46 ∧
